@@ -21,4 +21,14 @@ CUR=H6;  sel "$@" && run H6-angle-magnitudes-commuted C11
 CUR=H8;  sel "$@" && run H8-symdyad-eq-reversed-conjuncts C14
 CUR=H9;  sel "$@" && run H9-elastic-ctor-equivalent-formula C12
 CUR=H10; sel "$@" && run H10-print-manipulators-reordered C15
+CUR=H11; sel "$@" && run H11-length-plus-via-compound C04 C03
+CUR=H12; sel "$@" && run H12-value-in-unit-via-inplace C02 C15
+CUR=H14; sel "$@" && run H14-vector-hash-other-constants C14
+CUR=H16; sel "$@" && run H16-parsenumber-two-handlers C20
+CUR=H17; sel "$@" && run H17-abbreviation-named-iterator C08 C20 C15
+CUR=H18; sel "$@" && run H18-print-fabs C15
+CUR=H19; sel "$@" && run H19-fluid-strainrate-times-half-over-mu C13
+CUR=H20; sel "$@" && run H20-dynamic-pressure-equivalent-formula C18 C05 C03
+CUR=H22; sel "$@" && run H22-converting-ctor-functional-cast C16
+CUR=H23; sel "$@" && run H23-extra-correct-spelling C08
 git -C /repo status --short | grep -v '^??'
